@@ -143,6 +143,106 @@ def sibling_case(case):
         shutil.rmtree(root, ignore_errors=True)
 
 
+def seq_case(case):
+    """several runs in ONE interpreter with changing --max-workers (the core codemods are module-level objects that
+    survive from run to run): the in-flight bound holds in every run and every run gives the same report and files"""
+    import threading
+    import time
+
+    from codemodder.codemods.libcst_transformer import LibcstTransformerPipeline
+
+    rng = random.Random(case["seed"])
+    seeds = e2e.load_seeds()
+    files = {f"{rng.choice(['', 'pkg/', 'pkg/sub/'])}q{i}.py": rng.choice(seeds[rng.choice(case["codemods"])]) for i in range(case["n"])}
+    lock = threading.Lock()
+    st = {"cur": 0, "max": 0}
+    orig = LibcstTransformerPipeline.apply
+
+    def apply(self, context, file_context, results):
+        with lock:
+            st["cur"] += 1
+            st["max"] = max(st["max"], st["cur"])
+        try:
+            time.sleep(0.02)
+            return orig(self, context, file_context, results)
+        finally:
+            with lock:
+                st["cur"] -= 1
+
+    LibcstTransformerPipeline.apply = apply
+    root = common.tmpdir("c11q")
+    try:
+        runs = []
+        for k, w in enumerate(case["workers"]):
+            proj = root / f"p{k}" / "proj"
+            e2e.write_project(proj, files)
+            st["cur"] = st["max"] = 0
+            r = e2e.run(proj, ["--codemod-include", ",".join(case["codemods"]), "--max-workers", str(w)])
+            rep = e2e.normalise_report(r["report"]) if r["report"] else None
+            tree = {k2: v.decode("utf-8", "replace") for k2, v in e2e.read_tree(proj).items()}
+            runs.append({"workers": w, "rc": r["rc"], "max_inflight": st["max"], "sig": json.dumps([rep and rep.get("results"), tree], sort_keys=True, default=str)})
+        return {"runs": [{k: v for k, v in r.items() if k != "sig"} | {"same": r["sig"] == runs[0]["sig"]} for r in runs], "n": len(files)}
+    finally:
+        LibcstTransformerPipeline.apply = orig
+        shutil.rmtree(root, ignore_errors=True)
+
+
+class _Scan:
+    """os.scandir result with the entries in a chosen order (what another filesystem might hand out)"""
+
+    def __init__(self, it, mode, seed):
+        with it:
+            ents = list(it)
+        if mode == "asc": ents.sort(key=lambda e: e.name)
+        elif mode == "desc": ents.sort(key=lambda e: e.name, reverse=True)
+        else: random.Random(f"{seed}{len(ents)}").shuffle(ents)
+        self._it = iter(ents)
+
+    def __iter__(self): return self._it
+    def __next__(self): return next(self._it)
+    def __enter__(self): return self
+    def __exit__(self, *a): return False
+    def close(self): pass
+
+
+def enum_case(case):
+    """a tool-result driven codemod over several files, with the directory enumeration order ascending / descending / shuffled"""
+    from props import c06
+
+    item = case["item"]
+    tool, cid = item["tool"], item["codemod"]
+    rng = random.Random(case["seed"])
+    ents = c06.entries_of(tool, item["results"])
+    names = [f"{rng.choice(['', 'pkg/', 'pkg/sub/', 'zz/'])}{rng.choice('abcdefghijklmnopqrstuvwxyz')}{i}.py" for i in range(case["n"])]
+    placed = []
+    for fi, fn in enumerate(names):
+        for j, (kind, e) in enumerate(ents):
+            placed.append((kind, c06.place_entry(tool, e, fn, 0, 0, (1000 * (fi + 1) + j) if tool == "defectdojo" else f"K{fi}-{j}")))
+    doc = c06.build_doc(tool, item["results"], placed)
+    root = common.tmpdir("c11e")
+    real = os.scandir
+    try:
+        outs = []
+        for k, mode in enumerate(["asc", "desc", "shuffle"]):
+            proj = root / f"e{k}" / "proj"
+            e2e.write_project(proj, {fn: item["code"] for fn in names})
+            rf = root / f"res{k}.json"
+            rf.write_text(json.dumps(doc))
+            os.scandir = lambda p=".", _m=mode: _Scan(real(p), _m, case["seed"])
+            try:
+                r = e2e.run(proj, ["--codemod-include", cid, item["flag"], str(rf), "--max-workers", str(case["workers"])])
+            finally:
+                os.scandir = real
+            rep = e2e.normalise_report(r["report"]) if r["report"] else None
+            order = [cs["path"] for res in (r["report"] or {}).get("results", []) for cs in res["changeset"]]
+            tree = {k2: v.decode("utf-8", "replace") for k2, v in e2e.read_tree(proj).items()}
+            outs.append({"mode": mode, "rc": r["rc"], "order": order, "sig": json.dumps([rep and rep.get("results"), tree], sort_keys=True, default=str)})
+        return {"codemod": cid, "runs": [{k: v for k, v in o.items() if k != "sig"} | {"same": o["sig"] == outs[0]["sig"]} for o in outs]}
+    finally:
+        os.scandir = real
+        shutil.rmtree(root, ignore_errors=True)
+
+
 SIB_CODEMODS = ["pixee:python/numpy-nan-equality", "pixee:python/fix-assert-tuple", "pixee:python/use-walrus-if", "pixee:python/fix-mutable-params",
                 "pixee:python/remove-debug-breakpoint", "pixee:python/literal-or-new-object-identity", "pixee:python/exception-without-raise",
                 "pixee:python/str-concat-in-sequence-literals"]
@@ -185,3 +285,40 @@ def search(ctx):
             ctx.fail({"kind": "cli-crash"}, f"CLI failed {r['rc']}", {"case": c})
         elif r["bad"]:
             ctx.fail({"kind": "sibling-dependent", "codemods": c["codemods"]}, f"the outcome of {r['bad']} depends on which other files are present", {"case": c})
+
+    # worker sequences inside one interpreter
+    cases = [{"codemods": rng.sample(SIB_CODEMODS, rng.choice([1, 2])), "n": rng.randint(5, 8), "seed": rng.randint(0, 10**9),
+              "workers": [rng.choice([4, 8]), 1, rng.choice([2, 3]), 8, 1]} for _ in range(ctx.pick(3, 12))]
+    for c, r in zip(cases, impl.pool_map(seq_case, cases, procs=4)):
+        if r[0] != "ok":
+            ctx.broke("c11 worker-sequence harness", r[1]); continue
+        for run in r[1]["runs"]:
+            ctx.search_case("worker-sequence", {"case": c, "workers": run["workers"]}, run["max_inflight"] >= 2)
+            ctx.stat(f"seq_inflight={run['max_inflight']}/w={run['workers']}")
+            if run["rc"] != ["exit", 0]:
+                ctx.fail({"kind": "cli-crash"}, f"CLI failed {run['rc']}", {"case": c})
+            elif run["max_inflight"] > run["workers"]:
+                ctx.fail({"kind": "inflight-exceeds-workers", "sequence": True},
+                         f"{run['max_inflight']} files in flight with --max-workers {run['workers']} (run sequence {c['workers']} in one interpreter)", {"case": c})
+            elif not run["same"]:
+                ctx.fail({"kind": "schedule-dependent", "sequence": True}, f"--max-workers {run['workers']} gives another report / files than --max-workers {c['workers'][0]}", {"case": c})
+    # directory enumeration order, tool-result driven codemods
+    items = json.loads((common.VERIF / "harness" / "corpus" / "sast_seeds.json").read_text())
+    rng.shuffle(items)
+    seen, pick = set(), []
+    for it in items:
+        if it["codemod"] not in seen:
+            seen.add(it["codemod"]); pick.append(it)
+    cases = [{"item": it, "n": rng.randint(3, 6), "workers": rng.choice([1, 4]), "seed": rng.randint(0, 10**9)} for it in pick[: ctx.pick(5, 40)]]
+    for c, r in zip(cases, impl.pool_map(enum_case, cases, procs=8)):
+        if r[0] != "ok":
+            ctx.broke("c11 enumeration-order harness", r[1]); continue
+        r = r[1]
+        nfiles = len(r["runs"][0]["order"])
+        for run in r["runs"]:
+            ctx.search_case("enumeration-order", {"codemod": r["codemod"], "mode": run["mode"], "n": c["n"]}, nfiles >= 2)
+            if run["rc"] != ["exit", 0]:
+                ctx.fail({"kind": "cli-crash", "codemod": r["codemod"]}, f"CLI failed {run['rc']}", {"case": c})
+            elif not run["same"]:
+                ctx.fail({"kind": "enumeration-order-dependent", "codemod": r["codemod"]},
+                         f"{r['codemod']}: directory entries handed out in {run['mode']} order give changesets {run['order']}, in ascending order {r['runs'][0]['order']}", {"case": c})
